@@ -81,6 +81,22 @@ theorem eof_only_at_boundary (src : Source) (hd : src.data = []) (he : src.endin
     regenerated on every run). -/
 theorem source_envelope_length_is_model : Gen.envelopeLen = 5 := by decide
 
+set_option maxRecDepth 100000 in
+/-- **The flag bytes the six envelope dialects accept, and what they mean, are the source's**:
+    `Gen.decodeFlags_*Src` are translated from the `decodeEnvelope` methods of `protocol_grpc.go` /
+    `protocol_connect.go` on every run (guard and the two flag fields, expression by expression; a method that
+    delegates to another one is translated as that delegation).  For every flag byte the model's decoder
+    is the source's - a widened mask, another bit, or a client-side decoder that starts to accept the
+    end-of-stream bit breaks this theorem. -/
+theorem source_envelope_flags_are_model : ∀ flags : UInt8,
+    Enveloper.decodeFlags .grpcServer flags = Gen.decodeFlags_grpcServerProtocolSrc flags ∧
+    Enveloper.decodeFlags .grpcClient flags = Gen.decodeFlags_grpcClientProtocolSrc flags ∧
+    Enveloper.decodeFlags .grpcWebServer flags = Gen.decodeFlags_grpcWebServerProtocolSrc flags ∧
+    Enveloper.decodeFlags .grpcWebClient flags = Gen.decodeFlags_grpcWebClientProtocolSrc flags ∧
+    Enveloper.decodeFlags .connectStreamServer flags = Gen.decodeFlags_connectStreamServerProtocolSrc flags ∧
+    Enveloper.decodeFlags .connectStreamClient flags = Gen.decodeFlags_connectStreamClientProtocolSrc flags :=
+  forall_uint8 (by decide +kernel)
+
 /-- **Every complete message is delivered exactly, then a clean end** (see `Lemmas/Chunking.lean`). -/
 theorem complete_messages_delivered_exactly (w : World) (ce : Enveloper) (fs : List Frame) (st : St) (n : Nat)
     (hce : st.op.clientEnveloper = some ce) (hok : ∀ x ∈ fs, x.ok ce st.op.conf.maxMsg)
